@@ -209,7 +209,8 @@ def lookup_worker(analysis: Analysis, spec) -> dict:
             continue
         r = render(v.key()) if isinstance(v, V) and not isinstance(v, Const) else ("None" if isinstance(v, Const) and v.value is None else "?")
         desired_known = any(f[0] == "notnone" and ".new_state" in render(f[1]) and ".values" in render(f[1]) for f in s.facts)
-        rows.append({"kind": kind, "ret": r, "desired_pending": desired_known, "witness": describe_path(out)})
+        child_unknown = any(f[0] == "notin" and f[1] == args[0].key() and render(f[2]).endswith(".children") for f in s.facts)
+        rows.append({"kind": kind, "ret": r, "desired_pending": desired_known, "child_unknown": child_unknown, "witness": describe_path(out)})
     return {"rows": rows}
 
 
@@ -296,7 +297,11 @@ def lookup_rule(analysis: Analysis, res: RuleResult, rule: str, rule_total: str)
                 ok = ".new_state" in r["ret"]
                 res.add(rule, "sensor:Sensor.get_desired_value / pending desired value is answered first", ok, "mysensors/sensor.py", f"returns {r['ret']}", r["witness"] if not ok else None)
             else:
-                ok = r["ret"] == "None" or (".children" in r["ret"] and ".new_state" not in r["ret"])
+                if r["ret"] == "None":
+                    ok = r["child_unknown"]
+                    res.add(rule, "sensor:Sensor.get_desired_value / nothing only for a child the node does not have", ok, "mysensors/sensor.py", "returns None under `child not in children`" if ok else "returns None for a known child without consulting its reported values: the value request goes unanswered", r["witness"] if not ok else None)
+                    continue
+                ok = ".children" in r["ret"] and ".new_state" not in r["ret"]
                 res.add(rule, "sensor:Sensor.get_desired_value / otherwise the reported value (or nothing)", ok, "mysensors/sensor.py", f"returns {r['ret']}", r["witness"] if not ok else None)
 
 
@@ -304,7 +309,7 @@ def accept_rule(analysis: Analysis, res: RuleResult, rule: str) -> None:
     vers = [v for v in analysis.versions if v >= "2.0"] or analysis.versions[-1:]
     for summ in common.pmap(analysis, accept_worker, [(v, "serial", "sync") for v in vers]):
         if not summ["rows"]:
-            raise AnalysisError("C08-R5: no path of set_child_value records a desired value")
+            res.add(rule, "__init__:Gateway.set_child_value / a value set for a sleeping node is recorded as desired state", False, "mysensors/__init__.py", "no path of set_child_value records a desired value: values set while the node sleeps are lost", context=summ["ctx"])
         for r in summ["rows"]:
             ok = r["ctor_done"] and r["ctor_args_ok"]
             res.add(rule, "__init__:Gateway.set_child_value / desired value recorded only after the flush's constructor accepted it", ok, "mysensors/__init__.py", "create_message_to_set_sensor_value(sensor, child, value_type, value) completed before the store" if ok else "a desired value is recorded without having been validated the way the flush will build it: accepted at call time, may fail at wake-up", r["witness"] if not ok else None, context=summ["ctx"])
